@@ -131,10 +131,13 @@ def setup():
         # probe used by case_bandpass: a flat unit spectrum in, identity out -> the filter returns the very multiplier
         # it applies to each frequency bin
         @staticmethod
-        def fft(x, axis=-1, **kw):
+        def fft(x, n=None, axis=-1, **kw):
             if not PROBE_SPECTRUM:
                 raise core.Unsupported("np.fft.fft on symbolic data")
-            return arrays.mk([1.0] * int(np.prod(x.shape)), shape=tuple(x.shape), tag=np.dtype(float))
+            shp = list(x.shape)
+            if n is not None:
+                shp[axis] = int(n)          # a transform length other than the signal's: the spectrum has that many bins
+            return arrays.mk([1.0] * int(np.prod(shp)), shape=tuple(shp), tag=np.dtype(float))
 
         @staticmethod
         def ifft(x, axis=-1, **kw):
@@ -350,6 +353,30 @@ def case_taper_integer_abscissae(ctx, n):
         ctx.oblige("taper_on_integer_abscissae_equals_taper_on_floats", core.eq(A[i], B[i]), detail={"i": i, "int": A[i], "float": B[i]})
 
 
+def case_taper_pointwise(ctx, two_d):
+    """the cosine soft threshold is a point-wise function of the value: abscissae in any order (and on a 2-D grid, as the
+    f-k filter passes them) get 0 below the first bound, 1 above the second and the same value as when evaluated alone"""
+    import ibldsp.utils as u
+    b = [1.0, 2.0]
+    xs = [ctx.real(f"x{i}", 0, 3) for i in range(4)]
+    x = arrays.mk(list(xs), shape=(2, 2) if two_d else (4,), tag=np.dtype(float))
+    # what is known of the (uninterpreted) cosine on the arguments that occur: cos 0 = 1, cos pi = -1, values in [-1, 1]
+    cosf = core.ufun("uf_cos", z3.RealSort(), z3.RealSort())
+    pi = core._as_real(np.pi)
+    for xi in xs:
+        a = (xi - b[0]) / (b[1] - b[0]) * np.pi
+        ctx.solver.add(z3.And(cosf(a.t) >= -1, cosf(a.t) <= 1), z3.Implies(a.t == 0, cosf(a.t) == 1), z3.Implies(a.t == pi.t, cosf(a.t) == -1))
+    y = ctx.call("fcn_cosine", lambda: u.fcn_cosine(b)(x))
+    if not ctx.oblige("taper_keeps_the_shape", np.shape(y) == np.shape(x), detail={"shape": str(np.shape(y))}):
+        return
+    Y = np.asarray(arrays._plain(y), dtype=object).ravel().tolist()
+    for i in range(4):
+        alone = ctx.call("fcn_cosine_alone", lambda: u.fcn_cosine(b)(arrays.mk([xs[i]], tag=np.dtype(float))))
+        a0 = np.asarray(arrays._plain(alone), dtype=object).ravel().tolist()[0]
+        ctx.oblige("taper_value_depends_only_on_the_abscissa", core.eq(Y[i], a0), detail={"i": i, "x": xs[i], "got": Y[i], "alone": a0})
+        ctx.oblige("taper_is_zero_below_and_one_above_the_bounds", and_(implies(xs[i] <= b[0], core.eq(Y[i], 0)), implies(xs[i] >= b[1], core.eq(Y[i], 1))), detail={"i": i})
+
+
 def case_convolve_values(ctx, nsx, nsw, mode, two_d, int_signal=False):
     import ibldsp.fourier as f
     xs = [ctx.real(f"x{i}") for i in range(nsx)] if not int_signal else [ctx.int(f"x{i}", -1000, 1000) for i in range(nsx)]
@@ -469,6 +496,9 @@ def cases(tier):
     # integer-typed signal with a real kernel: the result is the real-valued convolution, not its truncation
     for mode in ("full", "same"):
         cs.append(Case(f"convolve_values_int_signal_4_3_{mode}", "case_convolve_values", {"nsx": 4, "nsw": 3, "mode": mode, "two_d": False, "int_signal": True}))
+    cs.append(Case("cosine_taper_pointwise_1d", "case_taper_pointwise", {"two_d": False}, timeout_s=900))
+    cs.append(Case("cosine_taper_pointwise_2d", "case_taper_pointwise", {"two_d": True}, timeout_s=900))
+    cs.append(Case("bandpass_overlap_ns13", "case_bandpass", {"ns": 13, "corners": [1, 4, 2, 6], "two_d": False}, timeout_s=1500))       # a length with a large prime factor
     cs.append(Case("cosine_taper_integer_abscissae", "case_taper_integer_abscissae", {"n": 6}))
     for (p, q) in ((1, 2), (2, 5), (0, 3)) if tier == "thorough" else ((1, 2),):
         cs.append(Case(f"filters_{p}_{q}", "case_filters", {"b0n": p, "b1n": q}))
@@ -557,6 +587,20 @@ else:
 print(X.shape, R.shape, E.shape)
 if E.shape != X.shape or not np.allclose(E, X): reproduced(f'fexpand(freduce(X), {{n}}) != X')
 if Bk.shape != Y.shape or not np.allclose(Bk, Y): reproduced(f'freduce(fexpand(Y, {{n}})) != Y')
+not_reproduced()
+"""
+    if case.startswith("cosine_taper_pointwise"):
+        xs = [float(Fraction(str(m.get(f"x{i}", 0)))) for i in range(4)]
+        return f"""
+import ibldsp.utils as u
+b = [1.0, 2.0]; x = np.array({xs}).reshape({(2, 2) if params['two_d'] else (4,)})
+try:
+    y = u.fcn_cosine(b)(x.copy())
+except Exception as e:
+    reproduced(f'fcn_cosine({{b}}) raised {{type(e).__name__}}: {{e}} on abscissae {{x.tolist()}}')
+alone = np.array([u.fcn_cosine(b)(np.array([v]))[0] for v in x.ravel()]).reshape(x.shape)
+print(x, y, alone)
+if np.shape(y) != x.shape or not np.allclose(y, alone, atol=1e-12): reproduced(f'fcn_cosine({{b}}) on {{x.tolist()}} gives {{np.asarray(y).tolist()}}, evaluated value by value {{alone.tolist()}}')
 not_reproduced()
 """
     if case.startswith("cosine_taper_integer"):
